@@ -211,7 +211,7 @@ class _AbstractSampler(_ABC):
         # Run details (panel 1) --------------------------------------------------------
         run_details = {}
         proposed_samples = self.current_proposal if self.current_proposal > 0 else None
-        acceptance_rate = self.accepted_proposals / (self.current_proposal + 1)
+        acceptance_rate = self.accepted_proposals / max(self.current_proposal + 1, 1)
         if not (self.start_time is None or self.end_time is None):
             runtime = (self.end_time - self.start_time).total_seconds()
             run_details["local start time (not timezone aware)"] = self.start_time
@@ -487,8 +487,10 @@ class _AbstractSampler(_ABC):
 
     def _close_sampler(self):
 
+        # current_proposal is -1 if sampling stopped before the first proposal finished
         self.samples.write_attribute(
-            "acceptance_rate", self.accepted_proposals / (self.current_proposal + 1)
+            "acceptance_rate",
+            self.accepted_proposals / max(self.current_proposal + 1, 1),
         )
 
         self.samples.write_attribute(
